@@ -12,6 +12,7 @@ import CookModel.Lemmas.RoundtripStepX
 import CookModel.Lemmas.RoundtripBlock
 import CookModel.Lemmas.RoundtripInput
 import CookModel.Lemmas.RoundtripDoc
+import CookModel.Lemmas.RoundtripAnalysis
 /-
   C01  Printing a recipe as Cooklang and parsing it returns that recipe.
 
@@ -810,5 +811,67 @@ example : stepShape [tk .word ['a'], C01_nl, tk .ws [' '], tk .eq ['='], tk .wor
 example : sepsOK [[C01_nl], []] = false ∧ sepsOK [[C01_nl, C01_nl], []] = true := by decide
 example : allBlocks 10 [⟨.word, ['a'], 0⟩, ⟨.newline, ['\n'], 1⟩, ⟨.word, ['b'], 2⟩] =
     [[⟨.word, ['a'], 0⟩, ⟨.newline, ['\n'], 1⟩, ⟨.word, ['b'], 2⟩]] := by decide
+
+/-! ### the analysis layer: a simple recipe through `parse_events` -/
+
+/-- Analysis layer of the round trip.  A `SimpleRecipe` is a list of steps, each a non-empty list
+    of items as the parser delivers them: text, ingredient, cookware and timer events.  If every
+    component is a plain definition — no `&` (REF) and no `+` (NEW) modifier, no intermediate
+    reference, a scaling lock `=` only on a numeric ingredient amount (`SItem.Simple`) — and neither
+    ADVANCED_UNITS nor INLINE_QUANTITIES is on (default modes: the collector starts in
+    `define = all`, `duplicate = new`), then `RecipeCollector::parse_events` on the events
+    `start step, items…, stop step` of all steps returns exactly `expectedCol env r`:
+    * one unnamed section holding one step per block, in order, numbered 1, 2, … (`stepsFrom`);
+      the items of a step are its texts (verbatim, nothing split) and component indices, where the
+      index of a component is the number of components of its kind before it in the recipe;
+    * the ingredient / cookware / timer tables list exactly those components in source order
+      (`ingrOf`, `cwOf`, `timerOf`: names, aliases, notes trimmed; the written modifier flags; every
+      component a definition, `defined_in_step`, referenced from nowhere; a numeric ingredient amount
+      without lock `Linear`, every other amount `Fixed`; the unit trimmed), even when two components
+      have the same name (with `duplicate = new` a repeated name is a new definition);
+    * no inline quantities, no metadata, no section besides the implicit one;
+    and NO diagnostic at all (the diagnostics array is empty: no error, no warning), no panic. -/
+theorem C01_analysis_simple {α : Type} [Arith α] (env : Env) (input : Str)
+    (hadv : env.ext.has Gen.EXT_ADVANCED_UNITS = false) (hinl : env.ext.has Gen.EXT_INLINE_QUANTITIES = false)
+    (r : SimpleRecipe α) (hs : ∀ st ∈ r.steps, ∀ it ∈ st, it.Simple) (hne : ∀ st ∈ r.steps, st ≠ []) :
+    parseEvents env input r.events = ⟨some (expectedCol env r), #[], none⟩ :=
+  rta_parseEvents_simple env input hadv hinl r hs hne
+
+/-! example: two steps, `Add @salt{=1%tsp} to the #pot{}` / `~{10%min}` + text; the conditions hold, the
+    expected steps are numbered 1 and 2 and the second step's timer has index 0 -/
+def C01_toyEnv : Env := ⟨toyCharSpec, ⟨0⟩, fun _ => none, fun _ _ => .ok, fun c => [c], 0⟩
+def C01_txt (s : String) (off : Nat) : Text := ⟨[⟨s.toList, off, false⟩], off, false⟩
+def C01_exSalt1 : Loc (PIngredient Rat) :=
+  ⟨⟨⟨⟨0⟩, ⟨5, 5⟩⟩, none, C01_txt "salt" 5, none,
+    some ⟨⟨⟨⟨.number (.regular 1), ⟨11, 12⟩⟩, some ⟨10, 11⟩⟩, some (C01_txt "tsp" 13)⟩, ⟨10, 16⟩⟩, none⟩, ⟨4, 17⟩⟩
+def C01_exPot1 : Loc (PCookware Rat) := ⟨⟨⟨⟨0⟩, ⟨26, 26⟩⟩, C01_txt "pot" 26, none, none, none⟩, ⟨25, 31⟩⟩
+def C01_exTimer1 : Loc (PTimer Rat) :=
+  ⟨⟨none, some ⟨⟨⟨⟨.number (.regular 10), ⟨35, 37⟩⟩, none⟩, some (C01_txt "min" 38)⟩, ⟨35, 41⟩⟩⟩, ⟨33, 42⟩⟩
+def C01_exSimple : SimpleRecipe Rat :=
+  ⟨[[.text (C01_txt "Add " 0), .ingredient C01_exSalt1, .text (C01_txt " to the " 17), .cookware C01_exPot1],
+    [.timer C01_exTimer1, .text (C01_txt " wait" 42)]]⟩
+
+example : ∀ st ∈ C01_exSimple.steps, ∀ it ∈ st, it.Simple := by
+  have h1 : IngrSimple C01_exSalt1 := ⟨rfl, by decide, by intro q hq; cases hq; intro _; exact ⟨rfl, rfl⟩⟩
+  have h2 : CwSimple C01_exPot1 := ⟨by decide, by intro q hq; cases hq⟩
+  have h3 : TimerSimple C01_exTimer1 := ⟨by intro q hq; cases hq; intro h; cases h⟩
+  intro st hst it hit
+  simp only [C01_exSimple, List.mem_cons, List.not_mem_nil, or_false] at hst
+  rcases hst with rfl | rfl <;> simp only [List.mem_cons, List.not_mem_nil, or_false] at hit <;>
+    rcases hit with rfl | rfl | rfl | rfl <;> first | trivial | exact h1 | exact h2 | exact h3
+example : C01_toyEnv.ext.has Gen.EXT_ADVANCED_UNITS = false ∧ C01_toyEnv.ext.has Gen.EXT_INLINE_QUANTITIES = false := by
+  decide
+example : (expectedCol C01_toyEnv C01_exSimple).sections =
+    [⟨none, [.step ⟨[.text "Add ".toList, .ingredient 0, .text " to the ".toList, .cookware 0], 1⟩,
+             .step ⟨[.timer 0, .text " wait".toList], 2⟩]⟩] := by
+  simp [expectedCol, C01_exSimple, stepsFrom, itemsFrom, SItem.toItem, ingrsOf, cwsOf, timersOf, SItem.ingr?, SItem.cw?,
+    SItem.timer?, C01_txt, Text.text]
+/-- the locked numeric ingredient amount is `Fixed`; the conditions are needed: `&` makes the
+    component a reference, a lock on a cookware amount is a warning -/
+example : (ingrOf C01_toyEnv C01_exSalt1).quantity.map (·.value) = some (.fixed (.number (.regular 1))) := by
+  simp [ingrOf, C01_exSalt1, expQuantity, expValue, Value.isText]
+example : ¬ plainMods ⟨Modifiers.REF⟩ := by decide
+example : ¬ lockOK (α := Rat) ⟨⟨.number (.regular 1), ⟨0, 1⟩⟩, some ⟨0, 1⟩⟩ false := by
+  intro h; exact absurd (h rfl).1 (by decide)
 
 end Cook
